@@ -122,24 +122,25 @@ package completion
 //@ func (*group).moveSelector
 //@   props C15 C01
 //@   terminates
-//@   requires gridok(g) && ((g.posX == -1 && g.posY == -1) || oncell(g))
+//@   requires (gridok(g) || agridok(g)) && ((g.posX == -1 && g.posY == -1) || oncell(g))
 //@   requires [unit-step] (x == 0 || y == 0) && -1 <= x && x <= 1 && -1 <= y && y <= 1
 //@   assigns g.posX, g.posY
-//@   ensures [stays-on-grid] (x == 1 || x == -1) && y == 0 ==> oncell(g)
-//@   ensures [first] x == 1 && y == 0 && old(g.posX) == -1 ==> g.posX == 0 && g.posY == 0 && !result0
-//@   ensures [next-in-row] x == 1 && y == 0 && old(oncell(g)) && old(g.posX) + 1 < len(g.rows[old(g.posY)]) ==> g.posY == old(g.posY) && g.posX == old(g.posX) + 1 && !result0
-//@   ensures [next-row] x == 1 && y == 0 && old(oncell(g)) && old(g.posX) + 1 == len(g.rows[old(g.posY)]) && old(g.posY) + 1 < len(g.rows) ==> g.posY == old(g.posY) + 1 && g.posX == 0 && !result0
-//@   ensures [last-done] x == 1 && y == 0 && old(oncell(g)) && old(g.posX) + 1 == len(g.rows[old(g.posY)]) && old(g.posY) + 1 == len(g.rows) ==> result0 && result1
-//@   ensures [prev-in-row] x == -1 && y == 0 && old(oncell(g)) && old(g.posX) >= 1 ==> g.posY == old(g.posY) && g.posX == old(g.posX) - 1 && !result0
-//@   ensures [prev-row] x == -1 && y == 0 && old(oncell(g)) && old(g.posX) == 0 && old(g.posY) >= 1 ==> g.posY == old(g.posY) - 1 && g.posX == len(g.rows[g.posY]) - 1 && !result0
-//@   ensures [first-done] x == -1 && y == 0 && old(oncell(g)) && old(g.posX) == 0 && old(g.posY) == 0 ==> result0 && !result1
+//@   ensures [stays-on-grid] !g.aliased ==> ((x == 1 || x == -1) && y == 0 ==> oncell(g))
+//@   ensures [first] !g.aliased ==> (x == 1 && y == 0 && old(g.posX) == -1 ==> g.posX == 0 && g.posY == 0 && !result0)
+//@   ensures [next-in-row] !g.aliased ==> (x == 1 && y == 0 && old(oncell(g)) && old(g.posX) + 1 < len(g.rows[old(g.posY)]) ==> g.posY == old(g.posY) && g.posX == old(g.posX) + 1 && !result0)
+//@   ensures [next-row] !g.aliased ==> (x == 1 && y == 0 && old(oncell(g)) && old(g.posX) + 1 == len(g.rows[old(g.posY)]) && old(g.posY) + 1 < len(g.rows) ==> g.posY == old(g.posY) + 1 && g.posX == 0 && !result0)
+//@   ensures [last-done] !g.aliased ==> (x == 1 && y == 0 && old(oncell(g)) && old(g.posX) + 1 == len(g.rows[old(g.posY)]) && old(g.posY) + 1 == len(g.rows) ==> result0 && result1)
+//@   ensures [prev-in-row] !g.aliased ==> (x == -1 && y == 0 && old(oncell(g)) && old(g.posX) >= 1 ==> g.posY == old(g.posY) && g.posX == old(g.posX) - 1 && !result0)
+//@   ensures [prev-row] !g.aliased ==> (x == -1 && y == 0 && old(oncell(g)) && old(g.posX) == 0 && old(g.posY) >= 1 ==> g.posY == old(g.posY) - 1 && g.posX == len(g.rows[g.posY]) - 1 && !result0)
+//@   ensures [first-done] !g.aliased ==> (x == -1 && y == 0 && old(oncell(g)) && old(g.posX) == 0 && old(g.posY) == 0 ==> result0 && !result1)
+//@   ensures [aliased-lands-on-a-cell] g.aliased && !result0 ==> oncell(g)
 
 //@ func (*group).lastCell
 //@   props C15 C01
-//@   terminates
-//@   requires gridok(g)
+//@   requires gridok(g) || agridok(g)
 //@   assigns g.posX, g.posY
-//@   ensures g.posY == len(g.rows) - 1 && g.posX == len(g.rows[g.posY]) - 1
+//@   ensures [last-cell] !g.aliased ==> g.posY == len(g.rows) - 1 && g.posX == len(g.rows[g.posY]) - 1
+//@   ensures [aliased-in-range] g.aliased ==> 0 <= g.posY && g.posY < len(g.rows) && 0 <= g.posX
 
 //@ func sum
 //@   props C15 C01
@@ -239,7 +240,7 @@ package completion
 // ---------------------------------------------------------------------------------------
 // C15 / C01: Select, the entry point of every menu movement (plain grids).  ginv is the shape every group
 // built by initCompletionsGrid has (gridok without the "at least one row" part: isearch can empty a group).
-//@ pred ginv(g *group) = g != nil && !g.aliased && g.maxY == len(g.rows) && all(k, 0, len(g.rows), len(g.rows[k]) >= 1) && ((g.posX == -1 && g.posY == -1) || len(g.rows) == 0 || oncell(g))
+//@ pred ginv(g *group) = g != nil && g.maxY == len(g.rows) && all(k, 0, len(g.rows), len(g.rows[k]) >= 1) && (g.aliased ==> g.maxX == len(g.columnsWidth) && all(k, 0, len(g.rows), len(g.rows[k]) <= len(g.columnsWidth))) && ((g.posX == -1 && g.posY == -1) || len(g.rows) == 0 || oncell(g))
 
 //@ func (*Engine).cycleNextGroup
 //@   trusted recursion through currentGroup, not proved; terminates because some group has rows (its precondition)
@@ -261,3 +262,17 @@ package completion
 //@   props C15 C01
 //@   requires evalid(e) && keymap.kmvalid(e.keymap) && all(k, 0, len(e.groups), ginv(e.groups[k]))
 //@   requires [unit-step] (row == 0 || column == 0) && -1 <= row && row <= 1 && -1 <= column && column <= 1
+
+// ---------------------------------------------------------------------------------------
+// C15 / C01: the walk over an aliased grid (rows of different lengths, visited column by column).
+// agridok: what initCompletionAliased establishes (every row has a cell and fits in the kept columns).
+//@ pred agridok(g *group) = g != nil && g.aliased && g.maxY == len(g.rows) && g.maxX == len(g.columnsWidth) && len(g.rows) >= 1 && all(k, 0, len(g.rows), len(g.rows[k]) >= 1 && len(g.rows[k]) <= len(g.columnsWidth))
+
+//@ func (*group).findFirstCandidate
+//@   props C15 C01
+//@   requires agridok(g) && 0 <= g.posY && g.posY < len(g.rows) && 0 <= g.posX
+//@   requires [unit-step] (x == 0 || y == 0) && -1 <= x && x <= 1 && -1 <= y && y <= 1
+//@   assigns g.posX, g.posY
+//@   ensures [lands-on-a-cell] !result0 ==> oncell(g)
+//@   ensures [done-stays-in-range] result0 ==> 0 <= g.posY && g.posY < len(g.rows) && 0 <= g.posX
+//@   loop 1 invariant agridok(g) && 0 <= g.posY && g.posY < len(g.rows) && 0 <= g.posX
